@@ -8,6 +8,14 @@ import (
 	"github.com/simpleiot/simpleiot/test"
 )
 
+// quantity limits of the Modbus application protocol (V1.1b3, section 6)
+const (
+	maxReadBits  = 2000
+	maxReadRegs  = 125
+	maxWriteBits = 1968
+	maxWriteRegs = 123
+)
+
 // PDU for Modbus packets
 type PDU struct {
 	FunctionCode FunctionCode
@@ -50,6 +58,12 @@ func (p *PDU) ProcessRequest(regs RegProvider) (bool, PDU, error) {
 	case FuncCodeReadCoils, FuncCodeReadDiscreteInputs:
 		address := binary.BigEndian.Uint16(p.Data[:2])
 		count := binary.BigEndian.Uint16(p.Data[2:4])
+		if count < 1 || count > maxReadBits {
+			return p.handleError(ExcIllegalValue)
+		}
+		if int(address)+int(count) > 0x10000 {
+			return p.handleError(ExcIllegalAddress)
+		}
 		bytes := byte((count + 7) / 8)
 		resp.Data = make([]byte, 1+bytes)
 		resp.Data[0] = bytes
@@ -69,6 +83,12 @@ func (p *PDU) ProcessRequest(regs RegProvider) (bool, PDU, error) {
 	case FuncCodeReadHoldingRegisters, FuncCodeReadInputRegisters:
 		address := binary.BigEndian.Uint16(p.Data[:2])
 		count := binary.BigEndian.Uint16(p.Data[2:4])
+		if count < 1 || count > maxReadRegs {
+			return p.handleError(ExcIllegalValue)
+		}
+		if int(address)+int(count) > 0x10000 {
+			return p.handleError(ExcIllegalAddress)
+		}
 
 		resp.Data = make([]byte, 1+2*count)
 		resp.Data[0] = uint8(count * 2)
@@ -110,8 +130,14 @@ func (p *PDU) ProcessRequest(regs RegProvider) (bool, PDU, error) {
 	case FuncCodeWriteMultipleCoils:
 		address := binary.BigEndian.Uint16(p.Data[:2])
 		quantity := binary.BigEndian.Uint16(p.Data[2:4])
+		if quantity < 1 || quantity > maxWriteBits {
+			return p.handleError(ExcIllegalValue)
+		}
 		if len(p.Data) != 5+((int(quantity)+7)/8) {
 			return p.handleError(ExcIllegalValue)
+		}
+		if int(address)+int(quantity) > 0x10000 {
+			return p.handleError(ExcIllegalAddress)
 		}
 		for i := 0; i < int(quantity); i++ {
 			value := (p.Data[5+i/8]>>(i%8))&1 == 1
@@ -139,8 +165,14 @@ func (p *PDU) ProcessRequest(regs RegProvider) (bool, PDU, error) {
 	case FuncCodeWriteMultipleRegisters:
 		address := binary.BigEndian.Uint16(p.Data[:2])
 		quantity := binary.BigEndian.Uint16(p.Data[2:4])
+		if quantity < 1 || quantity > maxWriteRegs {
+			return p.handleError(ExcIllegalValue)
+		}
 		if len(p.Data) != 5+(int(quantity)*2) {
 			return p.handleError(ExcIllegalValue)
+		}
+		if int(address)+int(quantity) > 0x10000 {
+			return p.handleError(ExcIllegalAddress)
 		}
 		for i := 0; i < int(quantity); i++ {
 			value := binary.BigEndian.Uint16(p.Data[5+i*2 : 5+i*2+2])
